@@ -371,7 +371,7 @@ class ListRec:
 class DictRec:
     """concrete: python dict key(hashable python const) -> SV, insertion ordered.
     symbolic: dom : Array(K,Bool), val : Array(K,sort) / per-field arrays, plus a size term"""
-    __slots__ = ("items", "ktype", "vtype", "dom", "val", "sym", "size", "farr")
+    __slots__ = ("items", "ktype", "vtype", "dom", "val", "sym", "size", "farr", "over")
 
     def __init__(self, items=None, ktype=("any",), vtype=("any",), dom=None, val=None, sym=None, size=None):
         self.items = items
@@ -382,6 +382,7 @@ class DictRec:
         self.sym = sym
         self.size = size
         self.farr = {}
+        self.over = []          # symbolic dict with non-primitive values: [(key term, value)] latest last
 
     @property
     def concrete(self):
@@ -391,6 +392,7 @@ class DictRec:
         r = DictRec(dict(self.items) if self.items is not None else None, self.ktype, self.vtype, self.dom, self.val,
                     self.sym, self.size)
         r.farr = dict(self.farr)
+        r.over = list(self.over)
         return r
 
 
